@@ -514,9 +514,29 @@ namespace pika::execution::experimental {
             {
             }
             sender(sender&&) noexcept = default;
-            sender& operator=(sender&&) noexcept = default;
+            sender& operator=(sender&& other) noexcept
+            {
+                if (this != &other)
+                {
+                    // Like in the destructor: an access that is overwritten without having been
+                    // started still has to take its turn and pass it on.
+                    if (state) { pika::execution::experimental::start_detached(std::move(*this)); }
+                    PIKA_ASSERT(!state);
+                    state = std::move(other.state);
+                }
+                return *this;
+            }
             sender(sender const&) = default;
-            sender& operator=(sender const&) = default;
+            sender& operator=(sender const& other)
+            {
+                if (this != &other)
+                {
+                    if (state) { pika::execution::experimental::start_detached(std::move(*this)); }
+                    PIKA_ASSERT(!state);
+                    state = other.state;
+                }
+                return *this;
+            }
             ~sender() noexcept
             {
                 if (state) { pika::execution::experimental::start_detached(std::move(*this)); }
@@ -710,9 +730,29 @@ namespace pika::execution::experimental {
             {
             }
             sender(sender&&) noexcept = default;
-            sender& operator=(sender&&) noexcept = default;
+            sender& operator=(sender&& other) noexcept
+            {
+                if (this != &other)
+                {
+                    // Like in the destructor: an access that is overwritten without having been
+                    // started still has to take its turn and pass it on.
+                    if (state) { pika::execution::experimental::start_detached(std::move(*this)); }
+                    PIKA_ASSERT(!state);
+                    state = std::move(other.state);
+                }
+                return *this;
+            }
             sender(sender const&) = default;
-            sender& operator=(sender const&) = default;
+            sender& operator=(sender const& other)
+            {
+                if (this != &other)
+                {
+                    if (state) { pika::execution::experimental::start_detached(std::move(*this)); }
+                    PIKA_ASSERT(!state);
+                    state = other.state;
+                }
+                return *this;
+            }
             ~sender() noexcept
             {
                 if (state) { pika::execution::experimental::start_detached(std::move(*this)); }
